@@ -14,6 +14,7 @@ func init() {
 	zzsv.Register("ZZ_C08_Text", ZZ_C08_Text)
 	zzsv.Register("ZZ_C08_Tokens", ZZ_C08_Tokens)
 	zzsv.Register("ZZ_C08_Holes", ZZ_C08_Holes)
+	zzsv.Register("ZZ_C08_RegexpBodies", ZZ_C08_RegexpBodies)
 	zzsv.Register("ZZ_C08_RuntimeFaults", ZZ_C08_RuntimeFaults)
 	zzsv.Register("ZZ_C08_OddObjects", ZZ_C08_OddObjects)
 }
@@ -116,6 +117,34 @@ func ZZ_C08_Holes(sv *zzsv.T) {
 	ok := zzDrive(sv, src, nil)
 	sv.Observe("ok", ok)
 	sv.Assert("C08.holes.nopanic", ok)
+}
+
+// ZZ_C08_RegexpBodies: regexp literals whose body is any 1..3 characters
+// over the regexp meta-characters (valid and invalid patterns alike), with
+// every flag spelling, in the three places a regexp literal can stand:
+// Prepare, Dump, Execute and Run never panic.
+func ZZ_C08_RegexpBodies(sv *zzsv.T) {
+	meta := "()?i[]\\*+.a|{^$:P<"
+	n := 1 + sv.Choice("len", sv.Param("rebody.maxlen", 2, 3))
+	body := sv.String("re", n)
+	for i := 0; i < n; i++ {
+		var in []bool
+		for j := 0; j < len(meta); j++ {
+			in = append(in, body[i] == meta[j])
+		}
+		sv.Assume(sv.Any(in...))
+	}
+	flags := []string{"", "i", "m", "im"}[sv.Choice("flags", sv.Param("rebody.flags", 2, 4))]
+	lit := "/" + body + "/" + flags
+	src := []string{
+		"return Name ~= " + lit + ";",
+		"switch (Name) { case " + lit + " { return 1; } } return 2;",
+		"x = " + lit + "; return match(Name, x);",
+	}[sv.Choice("place", 3)]
+	sv.Note("script", src)
+	ok := zzDrive(sv, src, map[string]interface{}{"Name": "a(i"})
+	sv.Observe("ok", ok)
+	sv.Assert("C08.rebody.nopanic", ok)
 }
 
 var zzFaultScripts = []string{
